@@ -14,6 +14,7 @@ import Golib.Proof.C03Iter
 import Golib.Proof.C03Bridge
 import Golib.Proof.C03OverSkip
 import Golib.Proof.C03Run
+import Golib.Proof.C03Seq
 import Golib.Gen.FactsC03
 
 namespace Golib.C03
@@ -287,6 +288,75 @@ example :
     specRun [] [.add 5, .add 70000, .add 5, .contains 5, .remove 5, .len, .add 3, .range 0, .all 1, .iter] =
       ([3, 70000], [.bool true, .bool true, .bool false, .bool true, .bool true, .int 1, .bool true,
         .list [3, 70000], .list [3], .iter [3, 70000] false]) := by decide
+
+/-- A held `iter.Seq` (the value `All()` returned at some earlier moment) is reusable.  In the
+model it carries no data: it is `All`'s body closed over the object.  Obtain it after any history
+`ops1`, run ANY further history `ops2` (conversions, vanishing buckets, …): in the state `r2`
+reached, every way of ranging it — fully, with an early break, twice, nested inside itself,
+through two alternating `iter.Pull` cursors — is a function of the CURRENT member list only
+(and, being a function of `r2`, leaves the state as it is). -/
+theorem c03_seq_reusable (ops1 ops2 : List ROp) (h1 : ∀ op ∈ ops1, op.ArgOk)
+    (h2 : ∀ op ∈ ops2, op.ArgOk) :
+    ∃ r1 outs1 r2 outs2, RB.runOps RB.empty ops1 = some (r1, outs1) ∧
+      RB.runOps r1 ops2 = some (r2, outs2) ∧ r2.Inv ∧
+      r2.seqRange 0 = r2.toList ∧
+      (∀ k, 0 < k → r2.seqRange k = r2.toList.take k) ∧
+      (∀ j, 0 < j → r2.seqTwice j = (r2.toList.take j, r2.toList)) ∧
+      (∀ j, 0 < j → r2.seqNest j =
+        (r2.toList.take j, List.replicate (min j r2.toList.length) r2.toList.length)) ∧
+      (∀ a, r2.pull2 a = (if a = 0 then r2.toList else r2.toList.take a, r2.toList)) := by
+  obtain ⟨r1, outs1, e1, i1, _⟩ := runOps_spec ops1 RB.empty RB.empty_inv h1
+  obtain ⟨r2, outs2, e2, i2, _⟩ := runOps_spec ops2 r1 i1 h2
+  exact ⟨r1, outs1, r2, outs2, e1, e2, i2, seq_spec r2 i2⟩
+
+example :
+    ((RB.runOps RB.empty [.add 5, .add 70000]).bind fun p => RB.runOps p.1 [.remove 5, .add 3, .add 9]).map
+      (fun q => (q.1.seqTwice 2, q.1.seqNest 2, q.1.pull2 1)) =
+    some (([3, 9], [3, 9, 70000]), ([3, 9], [3, 3]), ([3], [3, 9, 70000])) := by decide
+
+/-- Iterators are independent.  In every state satisfying the invariant: (1) `n` rounds of
+`Next/Value` on a fresh `Iter()` deliver exactly the first `n` members (all of them when there
+are fewer) and report whether every `Next` answered true; (2) continuing an iterator that has
+delivered `m` values delivers the following `n`; (3) for ANY interleaving schedule of step
+requests on four iterators created in this state, each iterator answers its own requests
+exactly as it would alone (`specOne`: consecutive slices of the member list) — the other
+iterators' requests have no influence; (4) an outer iteration that creates and exhausts a
+second iterator at each of its first `j` elements sees the first `j` members, and every inner
+count is the cardinality.  `Value` never panics in any of these. -/
+theorem c03_iters_independent (r : RB) (h : r.Inv) :
+    (∀ n, ∃ it', It.steps n r.iter [] = some (r.toList.take n, it', decide (n ≤ r.toList.length))) ∧
+    (∀ m n, ∃ it1 it2 b, It.steps m r.iter [] = some (r.toList.take m, it1, b) ∧
+      It.steps n it1 [] =
+        some ((r.toList.drop m).take n, it2, decide (n ≤ (r.toList.drop m).length))) ∧
+    (∀ sched : List (Fin 4 × Nat), ∃ outs, runSched (fun _ => r.iter) sched = some outs ∧
+      outs.length = sched.length ∧
+      ∀ i, ownAnswers i sched outs = specOne r.toList (ownReqs i sched)) ∧
+    (∀ j, r.itPairs j =
+      some (r.toList.take j, List.replicate (min j r.toList.length) r.toList.length)) := by
+  obtain ⟨hg, hrem⟩ := iter_good r h
+  refine ⟨?_, ?_, ?_, itPairs_spec r h⟩
+  · intro n
+    obtain ⟨it', e, _, _⟩ := steps_spec n r.iter [] hg
+    rw [hrem] at e
+    exact ⟨it', by simpa using e⟩
+  · intro m n
+    obtain ⟨it1, e1, g1, r1⟩ := steps_spec m r.iter [] hg
+    obtain ⟨it2, e2, _, _⟩ := steps_spec n it1 [] g1
+    rw [hrem] at e1 r1
+    rw [r1] at e2
+    exact ⟨it1, it2, _, by simpa using e1, by simpa using e2⟩
+  · intro sched
+    obtain ⟨outs, e1, e2, e3⟩ := sched_spec sched (fun _ => r.iter) (fun _ => hg)
+    refine ⟨outs, e1, e2, fun i => ?_⟩
+    rw [e3 i, hrem]
+
+/-- Two iterators in the same bucket and one standing in the next, interleaved; and `itPairs`. -/
+example :
+    runSched (fun _ => (⟨[(0, .arr #[1, 5]), (3, .arr #[7])], 3⟩ : RB).iter)
+      [(0, 1), (1, 2), (0, 1), (2, 5), (1, 3), (0, 2)] =
+      some [([1], true), ([1, 5], true), ([5], true), ([1, 5, 196615], false), ([196615], false),
+        ([196615], false)] ∧
+    (⟨[(0, .arr #[1, 5]), (3, .arr #[7])], 3⟩ : RB).itPairs 2 = some ([1, 5], [3, 3]) := by decide
 
 /-- What the hand-written model takes from the source text, re-extracted from /repo by go/ast
 on every run (`Golib/Gen/FactsC03.lean`; a shape that is not found is emitted as `false`/`0`, so
